@@ -22,6 +22,7 @@ import PV.C31.Spec
 import PV.C31.Gen
 import PV.C31.LemmasPrec
 import PV.C31.LemmasToml
+import PV.C31.LemmasDur
 namespace PV.C31
 open List
 
@@ -115,6 +116,21 @@ example : docOK ⟨[⟨['d', '-', 'k'], .str ['a', '"', '\\', '\n', '\x01', 'é'
     · exact ⟨⟨by decide, by decide⟩, by intro x hx c hc; revert c; revert x; decide⟩
     · exact ⟨⟨by decide, by decide⟩, by simp only [valOK]; omega⟩
     · exact ⟨⟨by decide, by decide⟩, by intro x hx; cases hx⟩
+
+/-! ### durations (full): `time.ParseDuration (time.Duration(d).String()) = d` for every int64 d
+
+`durString` transcribes `Duration.format` / `fmtFrac` / `fmtInt` digit for digit, `parseDur` transcribes
+`ParseDuration` (`leadingInt`, `leadingFraction` with its overflow rule, `unitMap`, the overflow checks);
+the fraction product, float64 in Go, is computed in naturals (exact for every text `String` prints).
+`toml.Duration.String/MarshalTOML` must be this function: the tie compares the rendered text. -/
+
+theorem C31_duration (d : Int) (h1 : -(2 ^ 63 : Int) ≤ d) (h2 : d < (2 ^ 63 : Int)) :
+    parseDur (durString d) = some d :=
+  parseDur_durString d h1 h2
+
+example : durString 600000000213 = "10m0.000000213s".toList ∧ durString 2000500000 = "2.0005s".toList ∧
+    durString (-9223372036854775808) = "-2562047h47m16.854775808s".toList ∧ durString 1500 = "1.5µs".toList ∧
+    durString 0 = "0s".toList := by decide
 
 /-- Every string of quotes, backslashes, control characters (except U+001F), DEL, Latin-1, BMP and
 astral characters with low 16 bits >= 0x1F is covered: -/
